@@ -1,4 +1,5 @@
 import SedpackProofs.ParMap
+import SedpackProofs.ParMapTerm
 /-!
 # C15 — The Rust reader equals the Python reader for every thread count and timing
 
@@ -121,6 +122,17 @@ theorem C15_drop_lets_workers_exit (c : Cfg) (s : St) (hd : s.dropped = true) (h
     · exact ⟨{ s with exited := upd s.exited w true }, by simp [step, hw, hex, hidle, hp, hfin w], Or.inl (by simp)⟩
   · left
     exact ⟨{ s with exited := upd s.exited w true }, by simp [step, hw, hex, hbusy, hd], by simp⟩
+
+/-- **Every schedule is finite** (also after a drop at any point): from a reachable state, any label list the protocol
+accepts has at most `bound c - prog c s` labels, where `bound c = 3·#items + m + 2` (receive, send and take per item, one
+exit per worker, the end, the drop) and `prog` counts the operations already done.  Together with
+`C15_deadlock_free` and `C15_drop_lets_workers_exit`: the reader neither stalls nor runs for ever. -/
+theorem C15_terminates (c : Cfg) (g : Good c) (s s' : St) (h : Reach c s) (tr : List Lbl) (hacc : accepts c s tr = some s') :
+    tr.length + prog c s ≤ bound c :=
+  accepts_length c g.nr tr s s' (inv_reach c g.nq g.nr s h) hacc
+
+/-- the bound in closed form for `m` workers and `nq` full rounds plus `nr` items -/
+example : bound { m := 2, nq := 1, nr := 1 } = 3 * 3 + 2 + 2 := by decide
 
 /-- Non-vacuity: 2 workers, 3 items; the second worker finishes first, the order is unaffected. -/
 def c23 : Cfg := { m := 2, nq := 1, nr := 1 }
